@@ -286,6 +286,9 @@ def _tensor(ctx, p, rng):
         T1 = np.asarray(UTPM.extract_tensor(N, Y, as_full_matrix=no))
         Hf = np.asarray(UTPM.extract_tensor(N, Y, as_full_matrix=yes)) if d == 2 else None
         T2 = np.asarray(UTPM.extract_tensor(N, Y, as_full_matrix=False))      # again: must not depend on earlier extractions
+        # a matrix-valued program (the outer product of (p, 2p) with itself): one table of partial derivatives per entry
+        Yv = PP.evaluate(algopy, [poly, poly], X, -1 - style)
+        Tm = np.asarray(UTPM.extract_tensor(N, algopy.outer(Yv, Yv * np.array([1.0, 2.0])), as_full_matrix=False))
     except Exception as e:
         ctx.violation('tensor:raises:' + type(e).__name__, {'N': N, 'd': d, 'error': repr(e)[:200]}); return
     if T1.shape != (len(J),):
@@ -309,6 +312,19 @@ def _tensor(ctx, p, rng):
                 ctx.violation('tensor:value:%s:%s' % ('d<=3' if d <= 3 else 'd>=4', tag), {'N': N, 'd': d, 'alpha': a, 'got': float(got), 'want': float(ref), 'x': x.tolist()}); return
     ctx.ok('tensor', ('tensor', N, d, p['point'], style), noise=worst,
            sample={'driver': 'tensor', 'N': N, 'd': d, 'x': x.tolist(), 'poly_terms': len(poly.t), 'max_err_over_scale': worst} if rng.random() < .1 else None)
+    # the matrix-valued program: entry (a, b) is k_ab * p(x)^2 with k = [[1, 2], [1, 2]]; its table is k_ab times the table of the
+    # scalar-valued program p * p (whose extraction is the scalar path checked above)
+    try:
+        Tpp = np.asarray(UTPM.extract_tensor(N, PP.evaluate(algopy, [poly], X, style) * PP.evaluate(algopy, [poly], X, style), as_full_matrix=False))
+    except Exception as e:
+        ctx.violation('tensor:raises:' + type(e).__name__, {'N': N, 'd': d, 'error': repr(e)[:200]}); return
+    kk = np.array([[1.0, 2.0], [1.0, 2.0]])
+    if Tm.shape != (len(J), 2, 2) or Tpp.shape != (len(J),):
+        ctx.violation('tensor:matrix-valued:shape', {'N': N, 'd': d, 'got': Tm.shape, 'want': (len(J), 2, 2)}); return
+    scm = np.max(np.abs(Tpp)) + float(total) ** 2 + 1e-300
+    if not np.all(np.abs(Tm - Tpp[:, None, None] * kk[None]) <= 1e-9 * scm * 8):
+        ctx.violation('tensor:matrix-valued:value', {'N': N, 'd': d, 'max_abs_difference': float(np.max(np.abs(Tm - Tpp[:, None, None] * kk[None])))}); return
+    ctx.ok('tensor', ('tensor-matrix-valued', N, d))
     if Hf is not None:
         if Hf.shape != (N, N):
             ctx.violation('tensor_full:shape', {'got': Hf.shape}); return
